@@ -26,7 +26,7 @@ SC_OPS = {
     "largest_connected_hypergraph": 0.5,
 }
 ALL_FAULTS = ["oneshot", "none_member", "unhashable_member", "dying", "empty_in_bulk", "none_node",
-              "unhashable_node", "attr_pairs", "attr_junk"]
+              "unhashable_node", "attr_pairs", "attr_junk", "exotic_id"]
 
 
 def swarm(r, table, p_drop=0.25):
@@ -95,4 +95,14 @@ def config(prop, seed, tier):
         from . import registry
 
         registry.configure(prop, cfg, r, tier)
+    # labels / attribute names from the fuzzing dictionary of the tree under test (own generator:
+    # the draws above are not disturbed)
+    rd = random.Random(seed ^ 0xD1C7)
+    cfg["dict_words"] = []
+    if rd.random() < 0.35:
+        from ..dictionary import weighted
+
+        ws = weighted()
+        if ws:
+            cfg["dict_words"] = [rd.choice(ws) for _ in range(2)]
     return cfg
